@@ -1,6 +1,6 @@
 """Contracts, cases, obligations and their discharge (DESIGN §2.3, §2.7–2.9)."""
 import json, os, subprocess, sys, tempfile, time, traceback, hashlib, z3
-from . import frontend, rx
+from . import frontend, rx, simp
 from .engine import Engine, St
 from .values import *
 
@@ -19,7 +19,7 @@ def register(cls):
 
 class Case:
     def __init__(self, label, args, post, pre=(), symbols=None, replay=None, models=None, inline=(), invariants=None,
-                 name_calls=None, zh=None, minimize=(), extra=None, heap=None, expect_paths=1, alloc=None, confirm=None):
+                 name_calls=None, zh=None, minimize=(), extra=None, heap=None, expect_paths=1, alloc=None, confirm=None, options=None):
         self.label, self.args, self.post, self.pre = label, args, post, list(pre)
         self.symbols = symbols or {}
         self.replay = replay
@@ -30,6 +30,7 @@ class Case:
         self.extra = extra           # extra(engine, paths) -> list of (name, hyps, goal): lemma-style obligations over the paths
         self.expect_paths = expect_paths
         self.alloc = alloc
+        self.options = options       # engine options (kinds, alloc_lists, list_mk)
         self.confirm = confirm       # confirm(witness, replay outcome) -> True (violation reproduced) / False / None
 
 
@@ -199,7 +200,7 @@ def verify(contract, repo, tier="quick"):
         res["error"] = "contract setup failed: %s\n%s" % (e, traceback.format_exc())
         return res
     for case in cases:
-        E = Engine(repo, models=case.models, inline=case.inline, invariants=case.invariants, name_calls=case.name_calls, alloc=case.alloc)
+        E = Engine(repo, models=case.models, inline=case.inline, invariants=case.invariants, name_calls=case.name_calls, alloc=case.alloc, options=case.options)
         st0 = St(pc=tuple(case.pre), zh=case.zh, heap=case.heap)
         # cover: the precondition is satisfiable
         s = z3.Solver(); s.set("timeout", 5000); s.add(*case.pre)
@@ -238,6 +239,22 @@ def verify(contract, repo, tier="quick"):
                 goal = z3.BoolVal(goal)
             d = discharge(nm, hyps, goal, tier, E.facts)
             solver = d.pop("_solver")
+            if d["verdict"] == "unknown" and case.replay is not None and case.confirm is not None and kind != "lemma":
+                # the solver could not decide; a contract with a concrete battery on the real code may still refute the obligation by a failing input
+                try:
+                    from . import replay as rp
+                    call = case.replay({})
+                    out = rp.run_call(repo, call) if call is not None else None
+                    if out is not None and case.confirm({}, out):
+                        d["verdict"] = "sat"
+                        d["refuted_by"] = "concrete battery on the real code (solver verdict was unknown)"
+                        d["witness"] = None; d["replay"] = call; d["confirmed"] = True; d["contract_holds_on_replay"] = False
+                        d["replay_outcome"] = {k: v for k, v in out.items() if k != "tb"}
+                        d["case"] = case.label
+                        res["obligations"].append(d)
+                        continue
+                except Exception as e:
+                    d["replay_error"] = "%s: %s" % (type(e).__name__, e)
             if d["verdict"] == "sat":
                 w = model_values(solver, case.symbols, case.minimize)
                 d["witness"] = w
@@ -271,10 +288,21 @@ def verify(contract, repo, tier="quick"):
                         d["replay_error"] = "%s: %s" % (type(e).__name__, e)
                 d["case"] = case.label
             if d["verdict"] == "unsat" and tier == "thorough" and kind not in ("lemma",):
-                # vacuity: the premises alone must be satisfiable
-                s3 = z3.Solver(); s3.set("timeout", 5000); s3.add(*hyps)
-                if s3.check() == z3.unsat:
-                    d["verdict"] = "vacuous"
+                # vacuity: an obligation whose premises are unsatisfiable sits on an infeasible path (the pruning of the executor is
+                # incomplete for quantified path conditions).  That is sound, but a case in which NO post obligation, or a loop for which
+                # NO preservation obligation, has satisfiable premises proves nothing: flagged below.
+                s3 = z3.Solver(); s3.set("timeout", 5000); s3.add(*simp.prepare(E.facts, list(hyps)))
+                d["premises"] = str(s3.check())
+                d["group"] = ("post:" + case.label) if nm.endswith(":post") else (nm.rsplit(":", 1)[0] + ":" + case.label if nm.endswith(":preserved") else None)
             res["obligations"].append(d)
+        if tier == "thorough":
+            groups = {}
+            for d in res["obligations"]:
+                if d.get("group") and d.get("case", case.label) == case.label and d.get("premises"):
+                    groups.setdefault(d["group"], []).append(d)
+            for gname, ds in groups.items():
+                if gname.endswith(":" + case.label) and all(d["premises"] == "unsat" for d in ds):
+                    for d in ds:
+                        d["verdict"] = "vacuous"
     res["seconds"] = round(time.time() - t_start, 3)
     return res
